@@ -575,6 +575,37 @@ def visitCycle (p : GProg) : Nat → List (Nat × Name) → LType → Bool
     | .map _ k v => visitCycle p f path k || visitCycle p f path v
     | _ => false
 
+/-- `typeCycleFinder.Visit` as it runs since the repair of finding D85: the finders of one search
+share `seenTypes.clean`, the types under which no reference leads back to the chain; a type found
+there is not searched again. (In the Go code a type is recorded unless `hits` moved, and `hits` only
+moves together with an error or for a container met twice on one chain, which cannot happen without
+meeting a typedef twice first: so exactly the typedefs whose visit returned no error are recorded.)
+Same verdicts as `visitCycle`, but linear where that is exponential (`typedef map<B, B> A`,
+`typedef map<C, C> B`, …). Returns the verdict and the grown memo. -/
+def visitCycleM (p : GProg) : Nat → List (Nat × Name) → List (Nat × Name) → LType → Bool × List (Nat × Name)
+  | 0, _, clean, _ => (true, clean)
+  | f + 1, path, clean, t =>
+    match t with
+    | .named m n =>
+      match lookupType p m n with
+      | some (.typedef target) =>
+        if path.contains (m, n) then (true, clean) else
+        if clean.contains (m, n) then (false, clean) else
+        match resolveExpr p m target with
+        | some t' =>
+          match visitCycleM p f ((m, n) :: path) clean t' with
+          | (true, c) => (true, c)
+          | (false, c) => (false, (m, n) :: c)
+        | none => (true, clean)
+      | _ => (false, clean)
+    | .list _ e => visitCycleM p f path clean e
+    | .set _ e => visitCycleM p f path clean e
+    | .map _ k v =>
+      match visitCycleM p f path clean k with
+      | (true, c) => (true, c)
+      | (false, c) => visitCycleM p f path c v
+    | _ => (false, clean)
+
 def TExpr.depth : TExpr → Nat
   | .base _ _ => 1
   | .list _ e => e.depth + 1
@@ -589,11 +620,12 @@ def typedefWeight : List (Name × TDef) → Nat
 
 def cycleFuel (p : GProg) : Nat := (p.map (fun m => typedefWeight m.types)).sum + 2
 
-/-- `findTypeCycles` for every typedef of module `m` (any order: only the error matters) -/
+/-- `findTypeCycles` for every typedef of module `m` (any order: only the error matters; every call
+starts with an empty memo, as in the Go code) -/
 def moduleHasCycle (p : GProg) (m : Nat) : Bool :=
   (modAt p m).types.any (fun (n, d) =>
     match d with
-    | .typedef _ => visitCycle p (cycleFuel p) [] (.named m n)
+    | .typedef _ => (visitCycleM p (cycleFuel p) [] [] (.named m n)).1
     | _ => false)
 
 /-! ### `compiler.link`, `Module.Walk`, `Compile` -/
